@@ -33,7 +33,7 @@ def tasks_exhaustive(ctx):
             # lock files of all handed-out jobs seen at the next observation / never seen before the result
             for vis in ((0,), (INF,)):
                 t.append((H.Opts(sp, loop="real", k=k, vis=vis), 0, 2 if n >= 5 else 0))
-                if n <= 4 or (ctx.thorough and n <= 6):
+                if n <= 4 or (ctx.thorough and n <= 5):
                     t.append((H.Opts(sp, loop="mirror", k=k, vis=vis), 0, 2 if n >= 5 else 0))
             # per-job choice of visibility
             if n <= 3 or (ctx.thorough and n <= 4):
@@ -138,7 +138,7 @@ def run(ctx):
             "asynchronous loop: k x completion orders x lock visibility (exhaustive)",
             bound=(
                 f"workflows {qs} (name: jobs), every k in 1..jobs, every completion order, lock visibility all-seen and none-seen (real loop; mirror loop for <= "
-                + ("6" if ctx.thorough else "4")
+                + ("5" if ctx.thorough else "4")
                 + " jobs), per-job visibility for <= "
                 + ("4" if ctx.thorough else "3")
                 + " jobs"
